@@ -1049,6 +1049,8 @@ def problems_of(label, rec):
     structural key.  `cause` names the event and mechanism where the invalid state originated; problems that are
     consequences of an earlier invalid entry of the addressed object inherit its cause."""
     events = rec["events"]
+    classes = rec.get("classes") or []
+    origin = {}            # cause -> class of the object on which it first arose (consequences keep it)
     cause_of = {}          # (obj, pos) -> cause of a known bad entry
     seeded = set()         # objects whose ("symeig", eigenvectors=True) entry was put there by a caller (event "seed")
     out = []
@@ -1114,6 +1116,7 @@ def problems_of(label, rec):
             else:
                 cause = "%s:%s" % (op, "raised" if stp.get("raised") else "invalid-answer")
             out.append((si, {"cause": cause, "op": op, "fail": "answer", "root": label, "method": chosen,
+                             "cls": origin.get(cause) or (classes[tgt] if tgt is not None and tgt < len(classes) else None),
                              "consequence": bool(inherited) and cause == inherited, "via": via_},
                         stp.get("why") or stp.get("exc") or ""))
         cur = {}
@@ -1158,8 +1161,10 @@ def problems_of(label, rec):
             else:
                 cause = "%s:wrote-%s" % (op, wc)
             newc[ident] = cause
+            origin.setdefault(cause, classes[tgt] if tgt is not None and tgt < len(classes) else None)
             ename = kk[1][1]
             out.append((si, {"cause": cause, "op": op, "fail": "entry", "entry": ename, "root": label,
+                             "cls": origin.get(cause),
                              "consequence": bool(inherited)}, why))
         cause_of = newc
     return out
